@@ -187,6 +187,42 @@ func execCtxs(e *opfix.ExecStart) []string {
 	return out
 }
 
+// snapCounts: a Synchronization (or Group) execution must show, for each binding it synchronises, exactly the
+// objects that existed when the execution started.
+func snapCounts(e *opfix.ExecStart, snap interface{}) (string, string) {
+	sn, ok := snap.([]interface{})
+	if !ok {
+		return "", ""
+	}
+	want := map[string]int{}
+	for _, x := range sn {
+		m := x.(map[string]interface{})
+		want[fmt.Sprint(m["b"])] = int(m["n"].(float64))
+	}
+	for _, cx := range e.Contexts {
+		b := fmt.Sprint(cx["binding"])
+		t, _ := cx["type"].(string)
+		if t == "Synchronization" {
+			if n, has := want[b]; has {
+				objs, _ := cx["objects"].([]interface{})
+				if len(objs) != n {
+					return "C02/synchronization-objects", fmt.Sprintf("Synchronization of binding %s lists %d objects, %d matching objects existed when it started", b, len(objs), n)
+				}
+			}
+		}
+		if t == "Group" {
+			if sm, ok := cx["snapshots"].(map[string]interface{}); ok {
+				for bn, n := range want {
+					if l, has := sm[bn].([]interface{}); has && len(l) != n {
+						return "C02/group-snapshots", fmt.Sprintf("Group execution: snapshot of %s lists %d objects, %d existed", bn, len(l), n)
+					}
+				}
+			}
+		}
+	}
+	return "", ""
+}
+
 func wantExecCtxs(t specTask) []string {
 	out := []string{}
 	for _, c := range t.Ctxs {
@@ -200,6 +236,36 @@ func wantExecCtxs(t specTask) []string {
 		}
 	}
 	return out
+}
+
+// settle waits until every queue has the specified length and every started monitor holds back the specified number
+// of Events (event delivery and unlock replay are asynchronous).
+func settle(f *opfix.Fixture, c Case, st State, max time.Duration) {
+	want := specQueues(st)
+	buf, _ := st["buffered"].(map[string]interface{})
+	ms, _ := st["mstate"].(map[string]interface{})
+	deadline := time.Now().Add(max)
+	for time.Now().Before(deadline) {
+		ok := true
+		for q, l := range want {
+			if f.QueueLen(q) != len(l) {
+				ok = false
+			}
+		}
+		for p, n := range buf {
+			if fmt.Sprint(ms[p]) != "started" {
+				continue
+			}
+			hb := strings.SplitN(p, "/", 2)
+			if got := f.Buffered(hb[0], hb[1]); got >= 0 && got != int(n.(float64)) {
+				ok = false
+			}
+		}
+		if ok {
+			return
+		}
+		time.Sleep(200 * time.Microsecond)
+	}
 }
 
 func replayCase(n int, c Case, hookbin string) Result {
@@ -227,6 +293,7 @@ func replayCase(n int, c Case, hookbin string) Result {
 	execID := map[string]string{}
 	lastFail := map[string]time.Time{}
 	running := map[string]string{} // queue -> hook of the process in progress
+	shut := false
 	for i := 1; i < len(c.Steps); i++ {
 		st := c.Steps[i]
 		a := st["act"].([]interface{})
@@ -268,6 +335,9 @@ func replayCase(n int, c Case, hookbin string) Result {
 							want[k] = want[k][:strings.Index(want[k], "/")]
 						}
 					}
+				}
+				if sig, d := snapCounts(e, run["snap"]); sig != "" {
+					return bad(i, sig, d)
 				}
 				if !reflect.DeepEqual(got, want) {
 					sig := "C07/contexts"
@@ -312,7 +382,20 @@ func replayCase(n int, c Case, hookbin string) Result {
 				f.FinishExec(id, map[string]interface{}{"exit": code})
 				delete(execID, q)
 			}
-			status, err := f.WaitHandled(q, 8*time.Second)
+			var status string
+			var err error
+			if shut {
+				status, err = f.WaitHandlerReturn(q, 8*time.Second)
+				if err == nil {
+					var id string
+					id, err = f.DrainToExit(q, 5*time.Second)
+					if err == nil && id != "" {
+						return bad(i, "C17/start-after-shutdown", fmt.Sprintf("queue %s started task %s after its handler returned although Shutdown had been requested", q, id))
+					}
+				}
+			} else {
+				status, err = f.WaitHandled(q, 8*time.Second)
+			}
 			if err != nil {
 				return bad(i, "DIV/steer/Finish", err.Error())
 			}
@@ -336,37 +419,56 @@ func replayCase(n int, c Case, hookbin string) Result {
 			hi, bj := int(a[1].(float64)), int(a[2].(float64))
 			h := c.Hooks[hi-1]
 			b := h.Kube[bj-1]
-			want := len(specQueues(st)[b.Queue])
 			if err := f.KubeEvent(h.Name, b.Name); err != nil {
 				return bad(i, "DIV/kube-event", err.Error())
 			}
-			if !f.WaitQueueLen(b.Queue, want, 4*time.Second) {
-				// the task may have gone to another queue: the comparison below tells
-				time.Sleep(5 * time.Millisecond)
+			if d, _ := st["down"].(bool); d {
+				time.Sleep(3 * time.Millisecond) // event handling is paused: nothing may happen
 			}
 		case "Tick":
 			if _, err := f.Tick(fmt.Sprint(a[1])); err != nil {
 				return bad(i, "DIV/tick", err.Error())
 			}
-			want := specQueues(st)
-			deadline := time.Now().Add(4 * time.Second)
-			for time.Now().Before(deadline) {
-				okAll := true
-				for q, l := range want {
-					if f.QueueLen(q) != len(l) {
-						okAll = false
-					}
+		case "Shutdown":
+			done := make(chan struct{})
+			go func() { f.Op.Shutdown(); close(done) }()
+			select {
+			case <-done:
+			case <-time.After(3 * time.Second):
+				return bad(i, "DIV/shutdown", "Shutdown did not return")
+			}
+			shut = true
+			// every worker that is not inside a handler must exit without starting anything
+			for q, r := range st["run"].(map[string]interface{}) {
+				if _, none := r.(map[string]interface{})["none"]; !none {
+					continue
 				}
-				if okAll {
-					break
+				id, err := f.DrainToExit(q, 5*time.Second)
+				if err != nil {
+					return bad(i, "DIV/steer/Shutdown", err.Error())
 				}
-				time.Sleep(300 * time.Microsecond)
+				if id != "" {
+					return bad(i, "C17/start-after-shutdown", fmt.Sprintf("queue %s started task %s after Shutdown had returned", q, id))
+				}
 			}
 		default:
 			return bad(i, "DIV/unknown-action", op)
 		}
+		settle(f, c, st, 3*time.Second)
 		if sig, d := classify(op, specQueues(st), realQueues(f)); sig != "" {
 			return bad(i, sig, d+fmt.Sprintf(" (after %v)", a))
+		}
+		if bufm, ok := st["buffered"].(map[string]interface{}); ok {
+			ms := st["mstate"].(map[string]interface{})
+			for p, nn := range bufm {
+				if fmt.Sprint(ms[p]) != "started" {
+					continue
+				}
+				hb := strings.SplitN(p, "/", 2)
+				if got := f.Buffered(hb[0], hb[1]); got >= 0 && got != int(nn.(float64)) {
+					return bad(i, "C01/held-back-events", fmt.Sprintf("binding %s holds back %d Events, specification %d (after %v)", p, got, int(nn.(float64)), a))
+				}
+			}
 		}
 		// no two hook processes of one queue at the same time: by construction of the stepping, a second process
 		// would have shown up as an unexpected execution
